@@ -144,3 +144,349 @@ func (x *Pointer[T]) CompareAndSwap(old, new *T) bool {
 	}
 	return false
 }
+
+// word is an atomic integer cell of any of the types sync/atomic offers.
+type word[T ~int32 | ~int64 | ~uint32 | ~uint64 | ~uintptr] struct {
+	id int
+	v  T
+}
+
+func (x *word[T]) init() {
+	if x.id == 0 {
+		x.id = csched.NewObj(func() uint64 { return uint64(x.v) })
+	}
+}
+
+// Load mirrors the Load method of the atomic integer types.
+func (x *word[T]) Load() T { x.init(); csched.SchedPoint("aload", x.id, nil); return x.v }
+
+// Store mirrors Store.
+func (x *word[T]) Store(v T) { x.init(); csched.SchedPoint("astore", x.id, nil); x.v = v }
+
+// Add mirrors Add.
+func (x *word[T]) Add(d T) T { x.init(); csched.SchedPoint("aadd", x.id, nil); x.v += d; return x.v }
+
+// Swap mirrors Swap.
+func (x *word[T]) Swap(v T) T {
+	x.init()
+	csched.SchedPoint("aswap", x.id, nil)
+	old := x.v
+	x.v = v
+	return old
+}
+
+// CompareAndSwap mirrors CompareAndSwap.
+func (x *word[T]) CompareAndSwap(old, new T) bool {
+	x.init()
+	csched.SchedPoint("acas", x.id, nil)
+	if x.v == old {
+		x.v = new
+		return true
+	}
+	return false
+}
+
+// And mirrors And (returns the old value).
+func (x *word[T]) And(m T) T {
+	x.init()
+	csched.SchedPoint("aand", x.id, nil)
+	old := x.v
+	x.v &= m
+	return old
+}
+
+// Or mirrors Or (returns the old value).
+func (x *word[T]) Or(m T) T {
+	x.init()
+	csched.SchedPoint("aor", x.id, nil)
+	old := x.v
+	x.v |= m
+	return old
+}
+
+// Uint32 mirrors atomic.Uint32.
+type Uint32 struct{ word[uint32] }
+
+// Uintptr mirrors atomic.Uintptr.
+type Uintptr struct{ word[uintptr] }
+
+// Swap mirrors atomic.Uint64.Swap.
+func (x *Uint64) Swap(v uint64) uint64 {
+	x.init()
+	csched.SchedPoint("aswap", x.id, nil)
+	old := x.v
+	x.v = v
+	return old
+}
+
+// Swap mirrors atomic.Int64.Swap.
+func (x *Int64) Swap(v int64) int64 {
+	x.init()
+	csched.SchedPoint("aswap", x.id, nil)
+	old := x.v
+	x.v = v
+	return old
+}
+
+// CompareAndSwap mirrors atomic.Int64.CompareAndSwap.
+func (x *Int64) CompareAndSwap(old, new int64) bool {
+	x.init()
+	csched.SchedPoint("acas", x.id, nil)
+	if x.v == old {
+		x.v = new
+		return true
+	}
+	return false
+}
+
+// Swap mirrors atomic.Int32.Swap.
+func (x *Int32) Swap(v int32) int32 {
+	x.init()
+	csched.SchedPoint("aswap", x.id, nil)
+	old := x.v
+	x.v = v
+	return old
+}
+
+// CompareAndSwap mirrors atomic.Int32.CompareAndSwap.
+func (x *Int32) CompareAndSwap(old, new int32) bool {
+	x.init()
+	csched.SchedPoint("acas", x.id, nil)
+	if x.v == old {
+		x.v = new
+		return true
+	}
+	return false
+}
+
+// Swap mirrors atomic.Bool.Swap.
+func (x *Bool) Swap(v bool) bool {
+	x.init()
+	csched.SchedPoint("aswap", x.id, nil)
+	old := x.v
+	x.v = v
+	return old
+}
+
+// CompareAndSwap mirrors atomic.Bool.CompareAndSwap.
+func (x *Bool) CompareAndSwap(old, new bool) bool {
+	x.init()
+	csched.SchedPoint("acas", x.id, nil)
+	if x.v == old {
+		x.v = new
+		return true
+	}
+	return false
+}
+
+// Value mirrors atomic.Value.
+type Value struct {
+	id int
+	v  interface{}
+}
+
+func (x *Value) init() {
+	if x.id == 0 {
+		x.id = csched.NewObj(func() uint64 {
+			if x.v == nil {
+				return 0
+			}
+			return 1
+		})
+	}
+}
+
+// Load mirrors atomic.Value.Load.
+func (x *Value) Load() interface{} { x.init(); csched.SchedPoint("vload", x.id, nil); return x.v }
+
+// Store mirrors atomic.Value.Store.
+func (x *Value) Store(v interface{}) {
+	if v == nil {
+		panic("sync/atomic: store of nil value into Value")
+	}
+	x.init()
+	csched.SchedPoint("vstore", x.id, nil)
+	x.v = v
+}
+
+// Swap mirrors atomic.Value.Swap.
+func (x *Value) Swap(v interface{}) interface{} {
+	x.init()
+	csched.SchedPoint("vswap", x.id, nil)
+	old := x.v
+	x.v = v
+	return old
+}
+
+// CompareAndSwap mirrors atomic.Value.CompareAndSwap.
+func (x *Value) CompareAndSwap(old, new interface{}) bool {
+	x.init()
+	csched.SchedPoint("vcas", x.id, nil)
+	if x.v == old {
+		x.v = new
+		return true
+	}
+	return false
+}
+
+// Function-style operations on plain variables: one scheduling point each.
+// The variable has no shim identity, so it does not enter the state hash.
+
+type integer interface {
+	~int32 | ~int64 | ~uint32 | ~uint64 | ~uintptr
+}
+
+func fload[T integer](p *T) T { csched.SchedPoint("aload", 0, nil); return *p }
+
+func fstore[T integer](p *T, v T) { csched.SchedPoint("astore", 0, nil); *p = v }
+
+func fadd[T integer](p *T, d T) T { csched.SchedPoint("aadd", 0, nil); *p += d; return *p }
+
+func fswap[T integer](p *T, v T) T {
+	csched.SchedPoint("aswap", 0, nil)
+	old := *p
+	*p = v
+	return old
+}
+
+func fcas[T integer](p *T, old, new T) bool {
+	csched.SchedPoint("acas", 0, nil)
+	if *p == old {
+		*p = new
+		return true
+	}
+	return false
+}
+
+func fand[T integer](p *T, m T) T { csched.SchedPoint("aand", 0, nil); old := *p; *p &= m; return old }
+
+func forr[T integer](p *T, m T) T { csched.SchedPoint("aor", 0, nil); old := *p; *p |= m; return old }
+
+// LoadInt32 mirrors atomic.LoadInt32.
+func LoadInt32(p *int32) int32 { return fload(p) }
+
+// StoreInt32 mirrors atomic.StoreInt32.
+func StoreInt32(p *int32, v int32) { fstore(p, v) }
+
+// AddInt32 mirrors atomic.AddInt32.
+func AddInt32(p *int32, d int32) int32 { return fadd(p, d) }
+
+// SwapInt32 mirrors atomic.SwapInt32.
+func SwapInt32(p *int32, v int32) int32 { return fswap(p, v) }
+
+// CompareAndSwapInt32 mirrors atomic.CompareAndSwapInt32.
+func CompareAndSwapInt32(p *int32, old, new int32) bool { return fcas(p, old, new) }
+
+// AndInt32 mirrors atomic.AndInt32.
+func AndInt32(p *int32, m int32) int32 { return fand(p, m) }
+
+// OrInt32 mirrors atomic.OrInt32.
+func OrInt32(p *int32, m int32) int32 { return forr(p, m) }
+
+// LoadInt64 mirrors atomic.LoadInt64.
+func LoadInt64(p *int64) int64 { return fload(p) }
+
+// StoreInt64 mirrors atomic.StoreInt64.
+func StoreInt64(p *int64, v int64) { fstore(p, v) }
+
+// AddInt64 mirrors atomic.AddInt64.
+func AddInt64(p *int64, d int64) int64 { return fadd(p, d) }
+
+// SwapInt64 mirrors atomic.SwapInt64.
+func SwapInt64(p *int64, v int64) int64 { return fswap(p, v) }
+
+// CompareAndSwapInt64 mirrors atomic.CompareAndSwapInt64.
+func CompareAndSwapInt64(p *int64, old, new int64) bool { return fcas(p, old, new) }
+
+// AndInt64 mirrors atomic.AndInt64.
+func AndInt64(p *int64, m int64) int64 { return fand(p, m) }
+
+// OrInt64 mirrors atomic.OrInt64.
+func OrInt64(p *int64, m int64) int64 { return forr(p, m) }
+
+// LoadUint32 mirrors atomic.LoadUint32.
+func LoadUint32(p *uint32) uint32 { return fload(p) }
+
+// StoreUint32 mirrors atomic.StoreUint32.
+func StoreUint32(p *uint32, v uint32) { fstore(p, v) }
+
+// AddUint32 mirrors atomic.AddUint32.
+func AddUint32(p *uint32, d uint32) uint32 { return fadd(p, d) }
+
+// SwapUint32 mirrors atomic.SwapUint32.
+func SwapUint32(p *uint32, v uint32) uint32 { return fswap(p, v) }
+
+// CompareAndSwapUint32 mirrors atomic.CompareAndSwapUint32.
+func CompareAndSwapUint32(p *uint32, old, new uint32) bool { return fcas(p, old, new) }
+
+// AndUint32 mirrors atomic.AndUint32.
+func AndUint32(p *uint32, m uint32) uint32 { return fand(p, m) }
+
+// OrUint32 mirrors atomic.OrUint32.
+func OrUint32(p *uint32, m uint32) uint32 { return forr(p, m) }
+
+// LoadUint64 mirrors atomic.LoadUint64.
+func LoadUint64(p *uint64) uint64 { return fload(p) }
+
+// StoreUint64 mirrors atomic.StoreUint64.
+func StoreUint64(p *uint64, v uint64) { fstore(p, v) }
+
+// AddUint64 mirrors atomic.AddUint64.
+func AddUint64(p *uint64, d uint64) uint64 { return fadd(p, d) }
+
+// SwapUint64 mirrors atomic.SwapUint64.
+func SwapUint64(p *uint64, v uint64) uint64 { return fswap(p, v) }
+
+// CompareAndSwapUint64 mirrors atomic.CompareAndSwapUint64.
+func CompareAndSwapUint64(p *uint64, old, new uint64) bool { return fcas(p, old, new) }
+
+// AndUint64 mirrors atomic.AndUint64.
+func AndUint64(p *uint64, m uint64) uint64 { return fand(p, m) }
+
+// OrUint64 mirrors atomic.OrUint64.
+func OrUint64(p *uint64, m uint64) uint64 { return forr(p, m) }
+
+// LoadUintptr mirrors atomic.LoadUintptr.
+func LoadUintptr(p *uintptr) uintptr { return fload(p) }
+
+// StoreUintptr mirrors atomic.StoreUintptr.
+func StoreUintptr(p *uintptr, v uintptr) { fstore(p, v) }
+
+// AddUintptr mirrors atomic.AddUintptr.
+func AddUintptr(p *uintptr, d uintptr) uintptr { return fadd(p, d) }
+
+// SwapUintptr mirrors atomic.SwapUintptr.
+func SwapUintptr(p *uintptr, v uintptr) uintptr { return fswap(p, v) }
+
+// CompareAndSwapUintptr mirrors atomic.CompareAndSwapUintptr.
+func CompareAndSwapUintptr(p *uintptr, old, new uintptr) bool { return fcas(p, old, new) }
+
+// AndUintptr mirrors atomic.AndUintptr.
+func AndUintptr(p *uintptr, m uintptr) uintptr { return fand(p, m) }
+
+// OrUintptr mirrors atomic.OrUintptr.
+func OrUintptr(p *uintptr, m uintptr) uintptr { return forr(p, m) }
+
+// LoadPointer mirrors atomic.LoadPointer.
+func LoadPointer(p *unsafe.Pointer) unsafe.Pointer { csched.SchedPoint("pload", 0, nil); return *p }
+
+// StorePointer mirrors atomic.StorePointer.
+func StorePointer(p *unsafe.Pointer, v unsafe.Pointer) { csched.SchedPoint("pstore", 0, nil); *p = v }
+
+// SwapPointer mirrors atomic.SwapPointer.
+func SwapPointer(p *unsafe.Pointer, v unsafe.Pointer) unsafe.Pointer {
+	csched.SchedPoint("pswap", 0, nil)
+	old := *p
+	*p = v
+	return old
+}
+
+// CompareAndSwapPointer mirrors atomic.CompareAndSwapPointer.
+func CompareAndSwapPointer(p *unsafe.Pointer, old, new unsafe.Pointer) bool {
+	csched.SchedPoint("pcas", 0, nil)
+	if *p == old {
+		*p = new
+		return true
+	}
+	return false
+}
